@@ -18,9 +18,17 @@ use std::ops::Deref;
 use std::sync::Arc;
 
 #[doc(hidden)]
+#[cfg(not(slotted_egraphs_verif))]
 pub type HashMap<K, V> = rustc_hash::FxHashMap<K, V>;
 #[doc(hidden)]
+#[cfg(not(slotted_egraphs_verif))]
 pub type HashSet<T> = rustc_hash::FxHashSet<T>;
+#[doc(hidden)]
+#[cfg(slotted_egraphs_verif)]
+pub type HashMap<K, V> = std::collections::HashMap<K, V, verif::SimBuildHasher>;
+#[doc(hidden)]
+#[cfg(slotted_egraphs_verif)]
+pub type HashSet<T> = std::collections::HashSet<T, verif::SimBuildHasher>;
 
 pub type SmallHashSet<T> = vec_collections::VecSet<[T; 8]>;
 pub type SmallHashMap<T, U> = vec_collections::VecMap<[(T, U); 8]>;
@@ -71,3 +79,6 @@ use group::*;
 
 mod run;
 pub use run::*;
+
+#[cfg(slotted_egraphs_verif)]
+pub mod verif;
